@@ -27,3 +27,6 @@ func (t *dScript) PeerFinishedOK() bool       { return t.s.PeerFinishedOK }
 func (t *dScript) WriteProtected() bool       { return t.s.WriteProtected() }
 func (t *dScript) HasMaster() bool            { return len(t.s.Master()) > 0 }
 func (t *dScript) HeaderLen() int             { return 12 }
+func (t *dScript) OfferedSessionID() []byte   { return t.s.OfferedSessionID() }
+func (t *dScript) SetResumeMaster(m []byte)   { t.s.ResumeMaster = m }
+func (t *dScript) Master() []byte             { return t.s.Master() }
